@@ -30,6 +30,7 @@ type Token struct {
 	kind int      // concrete kind when known (kNull..kObject), else -1
 	errv *Term    // for numbers from Itoa/FormatInt: the integer (sort 64), else nil
 	lit  string   // literal text when the engine knows it
+	engine bool   // built by the engine: attributes are constants where known
 }
 
 type TokMem struct {
